@@ -156,8 +156,7 @@ func c08Run(c *runner.Ctx) {
 	} else {
 		w, err = gen.GenWorld(r, c.TmpDir, fmt.Sprintf("w%d", c.Idx), gen.WorldOpts{MaxDocs: 120})
 	}
-	if err != nil {
-		c.Note(fmt.Sprintf("case %d: world construction failed (C01/C02/C04's business): %s", c.Idx, firstLine(err.Error())))
+	if w = usable(c, w, err); w == nil {
 		return
 	}
 	defer w.Close()
